@@ -42,7 +42,7 @@ func init() {
 	mutant("enc-indexed-writes-value", "enc-paths", "hpack.go", "if bits != 7 {", "if bits != 6 {")
 	mutant("enc-int-boundary-le", "enc-int-boundary", "hpack.go", "if index < b0 {", "if index <= b0 {")
 	mutant("enc-peek-output", "enc-no-output-peek", "hpack.go", "	dst = append(dst, 0)\n	nn := len(dst) - 1\n", "	if len(dst) == 0 || dst[len(dst)-1] != 0 {\n		dst = append(dst, 0)\n	}\n	nn := len(dst) - 1\n")
-	mutant("enc-size-update-flag-kept", "enc-size-update-first", "hpack.go", "		hp.pendingSizeUpdate = false\n\n		dst = appendInt", "		dst = appendInt")
+	mutant("enc-size-update-flag-kept", "enc-size-update-first", "hpack.go", "		hp.pendingSizeUpdate = false\n\n		if hp.pendingLowSize", "		if hp.pendingLowSize")
 	mutant("setmax-no-flag", "enc-size-update-first", "hpack.go", "	hp.maxTableSize = size\n	hp.pendingSizeUpdate = true\n", "	hp.maxTableSize = size\n")
 	mutant("huffman-code-entry", "huffman-tables", "huffman.go", "0x1ff8, 0x7fffd8,", "0x1ff9, 0x7fffd8,")
 	mutant("huffman-pad-zeros", "huffman-codec-structure", "huffman.go", "code = code<<n | (1<<n - 1)", "code = code << n")
@@ -225,7 +225,7 @@ func init() {
 	mutant("one-byte-body-dropped", "request-mapping", "serverConn.go", "hasBody := ctx.Response.IsBodyStream() || len(ctx.Response.Body()) > 0", "hasBody := ctx.Response.IsBodyStream() || len(ctx.Response.Body()) > 1")
 	mutant("short-read-dropped", "request-mapping", "serverConn.go", "	n, err := strm.bodyStream.Read(buf)\n	if n > 0 {", "	n, err := strm.bodyStream.Read(buf)\n	if n > 1 {")
 	mutant("server-encoder-not-resized", "settings-applied", "serverConn.go", "	sc.enc.SetMaxTableSize(sc.clientS.HeaderTableSize())\n", "")
-	mutant("server-settings-not-kept", "settings-applied", "serverConn.go", "	st.applyTo(&sc.clientS)\n	sc.enc.SetMaxTableSize(sc.clientS.HeaderTableSize())", "	sc.enc.SetMaxTableSize(st.HeaderTableSize())")
+	mutant("server-settings-not-kept", "settings-applied", "serverConn.go", "	st.applyTo(&sc.clientS)\n", "")
 	mutant("connection-header-kept", "settings-applied", "serverConn.go", "	res.Header.Del(\"Connection\")\n", "")
 }
 
@@ -689,7 +689,7 @@ func init() {
 	mutant("settings-merge-applies-absent-table-size", "settings-presence-guard", "settings.go", "	if st.has(HeaderTableSize) {\n		dst.tableSize = st.tableSize\n	}", "	dst.tableSize = st.tableSize")
 	mutant("settings-presence-bit-off-by-one", "settings-presence-guard", "settings.go", "	return st.present&(1<<id) != 0", "	return st.present&(1<<(id-1)) != 0")
 	mutant("settings-presence-only-for-window", "settings-presence-guard", "settings.go", "		if key >= HeaderTableSize && key <= MaxHeaderListSize {\n			st.present |= 1 << key", "		if key == MaxWindowSize {\n			st.present |= 1 << key")
-	mutant("settings-presence-survives-the-pool", "settings-presence-guard", "settings.go", "	st.hasWindowSize = false\n	st.present = 0\n}", "	st.hasWindowSize = false\n}")
+	mutant("settings-presence-survives-the-pool", "settings-presence-guard", "settings.go", "	st.hasWindowSize = false\n	st.present = 0\n", "	st.hasWindowSize = false\n")
 	mutant("client-encoder-size-from-the-bare-frame", "settings-presence-guard", "conn.go", "	atomic.StoreUint32(&c.encTableSize, c.serverS.HeaderTableSize())", "	atomic.StoreUint32(&c.encTableSize, st.HeaderTableSize())")
 	mutant("table-size-zero-left-out-again", "settings-encode-defaults", "settings.go", "	st.rawSettings = append(st.rawSettings,\n		byte(HeaderTableSize>>8), byte(HeaderTableSize),\n		byte(st.tableSize>>24), byte(st.tableSize>>16),\n		byte(st.tableSize>>8), byte(st.tableSize),\n	)\n", "	if st.tableSize != 0 {\n		st.rawSettings = append(st.rawSettings,\n			byte(HeaderTableSize>>8), byte(HeaderTableSize),\n			byte(st.tableSize>>24), byte(st.tableSize>>16),\n			byte(st.tableSize>>8), byte(st.tableSize),\n		)\n	}\n")
 	mutant("push-octet-set-when-disabled", "settings-codec-table", "settings.go", "	var push byte\n	if st.enablePush {\n		push = 1\n	}", "	var push byte\n	if !st.enablePush {\n		push = 1\n	}")
@@ -716,4 +716,34 @@ func init() {
 	mutant("handshake-deadline-after-tls", "dial-bounded", "conn.go", "	_ = c.SetDeadline(time.Now().Add(handshakeTimeout))\n\n	tlsConn := tls.Client(c, d.TLSConfig)\n\n	if err := tlsConn.Handshake(); err != nil {\n		_ = c.Close()\n		return nil, err\n	}", "	tlsConn := tls.Client(c, d.TLSConfig)\n\n	if err := tlsConn.Handshake(); err != nil {\n		_ = c.Close()\n		return nil, err\n	}\n\n	_ = c.SetDeadline(time.Now().Add(handshakeTimeout))")
 	mutant("handshake-deadline-never-removed", "dial-bounded", "conn.go", "	if err == nil {\n		err = c.SetDeadline(time.Time{})\n	}\n\n	return nc, err", "	return nc, err")
 	mutant("handshake-deadline-removed-before-the-handshake", "dial-bounded", "conn.go", "	err = nc.Handshake()\n	if err == nil {\n		err = c.SetDeadline(time.Time{})\n	}", "	err = c.SetDeadline(time.Time{})\n	if err == nil {\n		err = nc.Handshake()\n	}")
+}
+
+func init() {
+	mutant("sensitive-mark-sticks", "decoded-field-state", "hpack.go", "	hf.sensible = false\n\n	switch {", "	switch {")
+	mutant("plain-literal-marked-sensitive", "decoded-field-state", "hpack.go", "	case c&noIndexByte == 0: // 0000 0000\n", "	case c&noIndexByte == 0: // 0000 0000\n		hf.sensible = true\n")
+	mutant("empty-frame-keeps-old-payload", "reread-rewrite-frames", "frameHeader.go", "	} else {\n		// An empty frame has an empty payload, not whatever the frame that\n		// was read into this header before it left behind.\n		f.payload = f.payload[:0]\n	}", "	}")
+	mutant("data-keeps-padded-flag", "reread-rewrite-frames", "data.go", "		fr.SetFlags(fr.Flags().Del(FlagPadded))\n", "")
+	mutant("headers-keep-padded-flag", "reread-rewrite-frames", "headers.go", "		frh.SetFlags(flags.Del(FlagPadded))\n", "")
+	mutant("push-promise-keeps-padded-flag", "reread-rewrite-frames", "pushpromise.go", "		fr.SetFlags(fr.Flags().Del(FlagPadded))\n", "")
+	mutant("flag-del-toggles", "reread-rewrite-frames", "frame.go", "	return flags &^ f", "	return flags ^ f")
+	mutant("exclusive-bit-read-from-the-wrong-bit", "reread-rewrite-frames", "priority.go", "		pry.exclusive = fr.payload[0]&0x80 != 0", "		pry.exclusive = fr.payload[0]&0x40 != 0")
+	mutant("exclusive-bit-not-written", "payload-layout", "headers.go", "		if h.exclusive {\n			h.rawHeaders[0] |= 0x80\n		}\n", "")
+	mutant("headers-copy-loses-priority", "reread-rewrite-frames", "headers.go", "	h2.priority = h.priority\n", "")
+	mutant("second-content-length-wins", "message-consistency", "serverConn.go", "			if strm.hasContentLength && n != strm.contentLength {", "			if strm.hasContentLength && n != strm.contentLength && sc.debug {")
+	mutant("content-length-conflict-checked-after-the-store", "message-consistency", "serverConn.go", "			if strm.hasContentLength && n != strm.contentLength {\n				return sc.rejectBlock(strm, fr, b, NewResetStreamError(ProtocolError, \"conflicting content-length fields\"))\n			}\n\n			strm.contentLength = n\n			strm.hasContentLength = true\n", "			strm.contentLength = n\n			strm.hasContentLength = true\n\n			if strm.hasContentLength && n != strm.contentLength {\n				return sc.rejectBlock(strm, fr, b, NewResetStreamError(ProtocolError, \"conflicting content-length fields\"))\n			}\n")
+	mutant("client-settings-from-a-zero-value", "message-consistency", "conn.go", "	nc.current.Reset()\n", "")
+	mutant("client-accepts-server-push-setting", "message-consistency", "conn.go", "				if st.Push() {\n					err = NewGoAwayError(ProtocolError, \"server set SETTINGS_ENABLE_PUSH to 1\")\n					break\n				}\n", "")
+	mutant("client-accepts-server-push-setting-in-the-handshake", "message-consistency", "conn.go", "		if !st.IsAck() && st.Push() {\n			_ = c.c.Close()\n			return NewGoAwayError(ProtocolError, \"server set SETTINGS_ENABLE_PUSH to 1\")\n		}\n", "")
+	mutant("low-point-not-announced", "enc-size-update-first", "hpack.go", "		if hp.pendingLowSize < hp.maxTableSize {\n			dst = appendInt(append(dst, 0x20), 5, uint64(hp.pendingLowSize))\n		}\n", "")
+	mutant("low-point-announced-last", "enc-size-update-first", "hpack.go", "		if hp.pendingLowSize < hp.maxTableSize {\n			dst = appendInt(append(dst, 0x20), 5, uint64(hp.pendingLowSize))\n		}\n\n		dst = appendInt(append(dst, 0x20), 5, uint64(hp.maxTableSize))", "		dst = appendInt(append(dst, 0x20), 5, uint64(hp.maxTableSize))\n\n		if hp.pendingLowSize < hp.maxTableSize {\n			dst = appendInt(append(dst, 0x20), 5, uint64(hp.pendingLowSize))\n		}")
+	mutant("low-point-forgets-earlier-changes", "enc-size-update-first", "hpack.go", "	if !hp.pendingSizeUpdate || size < hp.pendingLowSize {", "	if !hp.pendingSizeUpdate && size < hp.pendingLowSize {")
+	mutant("settings-frame-low-point-lost", "table-size-low-point", "serverConn.go", "	if st.has(HeaderTableSize) {\n		sc.enc.SetMaxTableSize(st.tableSizeLow)\n	}\n", "")
+	mutant("client-hand-over-loses-the-low-point", "table-size-low-point", "conn.go", "		if low != noTableSizeLow {\n			c.enc.SetMaxTableSize(low)\n		}\n", "")
+}
+
+func init() {
+	mutant("idle-callback-closes-the-channel-again", "timer-callbacks-idempotent", "serverConn.go", "	select {\n	case sc.closer <- struct{}{}:\n	default:\n	}\n}", "	close(sc.closer)\n}")
+	mutant("idle-callback-send-can-block", "timer-callbacks-idempotent", "serverConn.go", "	select {\n	case sc.closer <- struct{}{}:\n	default:\n	}\n}", "	sc.closer <- struct{}{}\n}")
+	mutant("body-stream-closed-after-release-again", "access-discipline", "conn.go", "		if err == nil && end {\n			c.closeBodyStream(pb)\n		}\n\n		pb.ctx.release()\n", "		pb.ctx.release()\n\n		if err == nil && end {\n			c.closeBodyStream(pb)\n		}\n")
+	mutant("body-stream-field-cleared-again", "access-discipline", "conn.go", "	if pb.stream == nil || !pb.closed.CompareAndSwap(false, true) {\n		return\n	}\n", "	if pb.stream == nil || !pb.closed.CompareAndSwap(false, true) {\n		return\n	}\n\n	pb.stream = nil\n")
 }
